@@ -27,5 +27,6 @@ CONSTANTS
   BugBoundKeepsFirst = TRUE
   BugAsyncGenWrapped = FALSE
   FixedDeclaredReturn = FALSE
+  FixedAsyncGenInferred = TRUE
 INVARIANT ShapeViewsAgree
 CHECK_DEADLOCK FALSE
